@@ -27,3 +27,73 @@ func init() {
 		return Struct{mkInt(0, 64), SymInt{t}, (*Value)(nil)}, true
 	}
 }
+
+const icalPropDateTime = "(*github.com/emersion/go-ical.Prop).DateTime"
+const icalPropDuration = "(*github.com/emersion/go-ical.Prop).Duration"
+
+func init() {
+	// Date: an instant at midnight UTC: ext = day*86400, day in [1, 3652058].
+	intrinsics[vrtPkg+".Date"] = func(in *Interp, fr *frame, a []Value) (Value, bool) {
+		name := in.freshName(a[0].(string))
+		c := in.ctx
+		d := c.Var(name, smt.BV(64))
+		in.inputs = append(in.inputs, inputVar{Name: name, Kind: "int", Terms: []*smt.Term{d}, W: 64})
+		in.assume(fromTerm(c.And(c.Cmp(smt.OpSLe, c.BVConst(1, 64), d), c.Cmp(smt.OpSLe, d, c.BVConst(3652058, 64)))))
+		return Struct{mkInt(0, 64), fromTerm(c.MulNoOvf(d, 86400)), (*Value)(nil)}, true
+	}
+	// DurationSec(name, lo, hi): a time.Duration of a whole number of
+	// seconds in [lo,hi] (|bounds| < 2^33 so that secs*1e9 cannot overflow).
+	intrinsics[vrtPkg+".DurationSec"] = func(in *Interp, fr *frame, a []Value) (Value, bool) {
+		name := in.freshName(a[0].(string))
+		c := in.ctx
+		s := c.Var(name, smt.BV(64))
+		in.inputs = append(in.inputs, inputVar{Name: name, Kind: "int", Terms: []*smt.Term{s}, W: 64})
+		lo, hi := asInt64(a[1]), asInt64(a[2])
+		if lo < -(1<<33) || hi > 1<<33 {
+			panic(unsupported("DurationSec bounds too large"))
+		}
+		in.assume(fromTerm(c.And(c.Cmp(smt.OpSLe, c.BVConst(uint64(lo), 64), s), c.Cmp(smt.OpSLe, s, c.BVConst(uint64(hi), 64)))))
+		return fromTerm(c.MulNoOvf(s, 1000000000)), true
+	}
+	// Labels: the harness writes an instant / duration into an iCalendar
+	// property value through these; symbolically the value is a unique
+	// concrete label and the go-ical parsers are replaced by a lookup.
+	label := func(prefix string) intrinsic {
+		return func(in *Interp, fr *frame, a []Value) (Value, bool) {
+			l := prefix + string(rune('A'+len(in.labels)%26)) + string(rune('a'+len(in.labels)/26))
+			in.labels[l] = a[0]
+			return l, true
+		}
+	}
+	intrinsics[vrtPkg+".ICalTime"] = label("\x00VT")
+	intrinsics[vrtPkg+".ICalDate"] = label("\x00VD")
+	intrinsics[vrtPkg+".ICalDuration"] = label("\x00VP")
+	intrinsics[icalPropDateTime] = func(in *Interp, fr *frame, a []Value) (Value, bool) {
+		p := a[0].(*Value)
+		if p == nil {
+			return nil, false
+		}
+		v, ok := (*p).(Struct)[2].(string)
+		if !ok {
+			panic(unsupported("Prop.DateTime on a symbolic value (use vrt.ICalTime labels)"))
+		}
+		if t, ok := in.labels[v]; ok {
+			return Tuple{t, Iface{}}, true
+		}
+		return nil, false
+	}
+	intrinsics[icalPropDuration] = func(in *Interp, fr *frame, a []Value) (Value, bool) {
+		p := a[0].(*Value)
+		if p == nil {
+			return nil, false
+		}
+		v, ok := (*p).(Struct)[2].(string)
+		if !ok {
+			panic(unsupported("Prop.Duration on a symbolic value (use vrt.ICalDuration labels)"))
+		}
+		if d, ok := in.labels[v]; ok {
+			return Tuple{d, Iface{}}, true
+		}
+		return nil, false
+	}
+}
